@@ -74,6 +74,8 @@ def _apply_plan(actor, method, worker_id):
             continue
         if rule.get('worker_id') is not None and rule.get('worker_id') != worker_id:
             continue
+        if rule.get('if_file') and not os.path.exists(rule['if_file']):
+            continue
         key = (i, os.getpid() if rule.get('per_process') else 0)
         with _counts_lock:
             _counts[key] = _counts.get(key, 0) + 1
